@@ -21,7 +21,7 @@ sys.path.insert(0, os.path.join(HERE, '..'))
 FORMS = ['csv', 'df_str', 'df_native', 'pq_str', 'pq_native']
 SCRIPT = 'DS_r <- DS_1;'
 INPUT_ERRORS = ('DataLoadError', 'InputValidationException')
-CALL_BUDGET = 60
+CALL_BUDGET = 300
 
 _TMP = None
 
@@ -152,7 +152,10 @@ def guarded(fn, *a, **kw):
     signal.signal(signal.SIGALRM, _alarm)
     signal.alarm(CALL_BUDGET)
     try:
-        return eng.outcome(fn, *a, **kw)
+        o = eng.outcome(fn, *a, **kw)
+        if o[0] == 'raw' and o[1].endswith('_TO'):
+            return ('timeout',)
+        return o
     except _TO:
         return ('timeout',)
     finally:
@@ -264,7 +267,7 @@ def dbg(msg):
 
 def _work_i(args):
     i, fn, payload = args
-    return i, globals()[fn](payload)
+    return i, (globals()[fn] if isinstance(fn, str) else fn)(payload)
 
 
 def pool_map(fn_name, payloads, jobs=14):
@@ -272,6 +275,32 @@ def pool_map(fn_name, payloads, jobs=14):
     import vlib
     if not payloads:
         return []
+    cache_path = os.environ.get('VERIF_INPUT_CACHE')
+    if cache_path and fn_name == 'run_case':
+        # development aid (discovery of known findings): run every table once in all forms + validate_dataset
+        # and share the outcomes between the checks of the group
+        import pickle
+        cache = pickle.load(open(cache_path, 'rb')) if os.path.exists(cache_path) else {}
+        keyof = lambda p: json.dumps([p['struct'], p['columns'], p['rows'], p.get('focus')], sort_keys=True)
+        missing = {}
+        for p in payloads:
+            if keyof(p) not in cache:
+                missing[keyof(p)] = dict(strip_case(p), focus=p.get('focus'), forms=FORMS, validate=True)
+        if missing:
+            os.environ.pop('VERIF_INPUT_CACHE')
+            try:
+                res = pool_map('run_case', list(missing.values()), jobs)
+            finally:
+                os.environ['VERIF_INPUT_CACHE'] = cache_path
+            cache.update(dict(zip(missing.keys(), res)))
+            pickle.dump(cache, open(cache_path, 'wb'))
+        out = []
+        for p in payloads:
+            full = cache[keyof(p)]
+            fs = p.get('forms') or FORMS
+            out.append({'run': {f: o for f, o in full['run'].items() if f in fs},
+                        'val': {f: o for f, o in full['val'].items() if f in fs} if p.get('validate', True) else {}})
+        return out
     ctx = mp.get_context('fork')
     res = [None] * len(payloads)
     dbg('pool: %d payloads of %s' % (len(payloads), fn_name))
@@ -453,11 +482,13 @@ def resolve_asks(ck, probs_list):
     res = {}
     for d, a in zip(asks, ans):
         same = a.startswith('ok ') and dec_str(a[3:]) == d['spec']
-        res[id(d)] = 'form' if same else 'value'
+        # a Time interval is returned in the spelling it came in (the docs define no other output form)
+        res[id(d)] = ('eq' if d['type'] == 'Time' else 'form') if same else 'value'
     for probs in probs_list:
         for i, (k, d) in enumerate(probs):
             if k == 'ask':
                 probs[i] = (res[id(d)], d)
+        probs[:] = [p for p in probs if p[0] != 'eq']
 
 
 def regen_patterns(ck):
